@@ -10,8 +10,28 @@ Proof.
   unfold Known_C30. intros H. apply negb_false_iff in H. intros tr s Hr. now apply (safe_progress calls tr s).
 Qed.
 
+(* method AND property handlers that await / register / remove / emit: the property's first clause, for every burst
+   without Introspect traffic *)
+Theorem nodeadlock_handlers calls : handlers_only calls = true -> no_deadlock calls.
+Proof. intros H. apply nodeadlock_partial. unfold Known_C30. now rewrite (handlers_only_safe calls H). Qed.
+
 Theorem nodeadlock_methods calls : methods_only calls = true -> no_deadlock calls.
-Proof. intros H. apply nodeadlock_partial. unfold Known_C30. now rewrite (methods_only_safe calls H). Qed.
+Proof. intros H. apply nodeadlock_handlers. now apply methods_are_handlers. Qed.
+
+Theorem known_needs_introspect_or_lookup calls :
+  Known_C30 calls = true -> has_introspect calls = true \/ has_lookup calls = true.
+Proof.
+  intros Hk. destruct (has_introspect calls) eqn:Hi; [now left|]. destruct (has_lookup calls) eqn:Hl; [now right|]. exfalso.
+  assert (Hh : handlers_only calls = true).
+  { unfold handlers_only. apply forallb_forall. intros c Hc. unfold plain_handler.
+    assert (Hk' : match c_kind c with KIntro => true | _ => false end = false).
+    { destruct (match c_kind c with KIntro => true | _ => false end) eqn:E; [|reflexivity].
+      assert (has_introspect calls = true); [|congruence]. unfold has_introspect. apply existsb_exists. now exists c. }
+    destruct (c_kind c); try discriminate; apply forallb_forall; intros o Ho; destruct o; try reflexivity;
+      (assert (has_lookup calls = true); [|congruence]); unfold has_lookup; apply existsb_exists; exists c; (split; [assumption|]);
+      apply existsb_exists; eexists; (split; [exact Ho|reflexivity]). }
+  unfold Known_C30 in Hk. rewrite (handlers_only_safe calls Hh) in Hk. discriminate.
+Qed.
 
 (* a deadlock found by the model: the handler events up to it, and a run that ends stuck with calls unfinished *)
 Definition deadlocks (calls : list call) (obs : list ev) : Prop :=
@@ -41,29 +61,23 @@ Qed.
 Definition mk (id : nat) (k : ckind) (i : nat) (sc : list op) : call :=
   {| c_id := id; c_kind := k; c_if := i; c_spawn := true; c_script := sc |}.
 
-(* (1) a property setter (&mut self) that registers an object: Properties::set keeps the root read guard while the
-       setter waits for the root write lock.  Deterministic: the harness case is  D i -,-,-,- s0:a0 *)
-Definition w_setter : list call := [mk 0 KSetMut 0 [OAt]].
-(* (2) a property getter that removes an object, reached through Properties.Get *)
-Definition w_getter : list call := [mk 0 KGet 0 [ORemove]].
-(* (3) a METHOD handler (&mut self) that registers an object while a Properties.Get on the same interface is in flight:
-       Get holds the root read guard and waits for the interface lock, the method holds the interface write lock and
-       waits for the root write lock.  D i -,-,-,- m0:z30.a0 g0 *)
-Definition w_method : list call := [mk 0 KMut 0 [OAwait 1; OAt]; mk 1 KGet 0 []].
-(* (4) the same with &self methods only: a pending writer on the interface lock is enough (write-preferring lock) *)
-Definition w_method_ref : list call := [mk 0 KRef 0 [OAwait 1; OAt]; mk 1 KMut 0 []; mk 2 KGet 0 []].
-(* (5) a method handler that registers an object while Introspect walks the same node *)
+(* What the repair of Properties::get / set / get_all (/repo d9501501) left: Introspectable::introspect (and
+   ObjectManager::get_managed_objects, same shape, not modelled) still keeps the root read guard while it read-locks the
+   interfaces of the node.
+   (1) a METHOD handler (&mut self) that registers an object while Introspect walks the same node: Introspect holds the
+       root read guard and waits for the interface lock, the method holds the interface write lock and waits for the
+       root write lock.  Harness case  D i -,-,-,- m0:z30.a0 x0 *)
 Definition w_introspect : list call := [mk 0 KMut 0 [OAwait 1; OAt]; mk 1 KIntro 0 []].
+(* (2) the same with a property SETTER (&mut self) as the handler.  D i -,-,-,- s0:z30.a0 x0 *)
+Definition w_setter_introspect : list call := [mk 0 KSetMut 0 [OAwait 1; ORemove]; mk 1 KIntro 0 []].
+(* (3) with &self methods a third call waiting for the interface write lock is enough (write-preferring lock) *)
+Definition w_ref_introspect : list call := [mk 0 KRef 0 [OAwait 1; OAt]; mk 1 KMut 0 []; mk 2 KIntro 0 []].
 
-Lemma w_setter_dead : deadlocks w_setter [EvS 0].
-Proof. apply deadlock_witness. vm_compute. reflexivity. Qed.
-Lemma w_getter_dead : deadlocks w_getter [EvS 0].
-Proof. apply deadlock_witness. vm_compute. reflexivity. Qed.
-Lemma w_method_dead : deadlocks w_method [EvS 0; EvO 0 0].
-Proof. apply deadlock_witness. vm_compute. reflexivity. Qed.
-Lemma w_method_ref_dead : deadlocks w_method_ref [EvS 0; EvO 0 0].
-Proof. apply deadlock_witness. vm_compute. reflexivity. Qed.
 Lemma w_introspect_dead : deadlocks w_introspect [EvS 0; EvO 0 0].
+Proof. apply deadlock_witness. vm_compute. reflexivity. Qed.
+Lemma w_setter_introspect_dead : deadlocks w_setter_introspect [EvS 0; EvO 0 0].
+Proof. apply deadlock_witness. vm_compute. reflexivity. Qed.
+Lemma w_ref_introspect_dead : deadlocks w_ref_introspect [EvS 0; EvO 0 0].
 Proof. apply deadlock_witness. vm_compute. reflexivity. Qed.
 
 Lemma deadlock_refutes calls obs : deadlocks calls obs -> ~ no_deadlock calls.
@@ -74,23 +88,37 @@ Qed.
 
 Theorem full_refuted : ~ C30_full_statement.
 Proof.
-  intros H. apply (deadlock_refutes w_setter [EvS 0] w_setter_dead). apply H.
-  - cbn. repeat constructor; cbn; tauto.
+  intros H. apply (deadlock_refutes w_introspect _ w_introspect_dead). apply H.
+  - cbn. repeat constructor; cbn; intuition discriminate.
   - reflexivity.
 Qed.
 
 (* the witnesses are in the known class, as they must be *)
 Example witnesses_known :
-  Known_C30 w_setter = true /\ Known_C30 w_getter = true /\ Known_C30 w_method = true /\
-  Known_C30 w_method_ref = true /\ Known_C30 w_introspect = true.
+  Known_C30 w_introspect = true /\ Known_C30 w_setter_introspect = true /\ Known_C30 w_ref_introspect = true.
 Proof. vm_compute. repeat split; reflexivity. Qed.
 
-(* non-vacuity of the partial theorem: property handlers that await and emit, next to method handlers that register
-   objects on OTHER interfaces, are outside the known class *)
+(* the bursts that deadlocked before the repair are now outside the known class and run to completion (two schedules):
+   a setter that registers, a getter that removes, a method that registers while Properties.Get is in flight, the same
+   with &self methods and a pending writer *)
+Definition was_setter : list call := [mk 0 KSetMut 0 [OAt]].
+Definition was_getter : list call := [mk 0 KGet 0 [ORemove]].
+Definition was_method : list call := [mk 0 KMut 0 [OAwait 1; OAt]; mk 1 KGet 0 []].
+Definition was_method_ref : list call := [mk 0 KRef 0 [OAwait 1; OAt]; mk 1 KMut 0 []; mk 2 KGet 0 []].
+Example repaired_safe :
+  Known_C30 was_setter = false /\ Known_C30 was_getter = false /\ Known_C30 was_method = false /\ Known_C30 was_method_ref = false.
+Proof. vm_compute. repeat split; reflexivity. Qed.
+Example repaired_run :
+  forallb (fun cs => ex_check cs (auto_run 2000 (init cs) []) && ex_check cs (auto_run_rev 2000 (init cs) []))
+          [was_setter; was_getter; was_method; was_method_ref] = true.
+Proof. vm_compute. reflexivity. Qed.
+
+(* non-vacuity of the partial theorem beyond handlers_only: Introspect traffic next to handlers that register objects on
+   OTHER interfaces, property handlers that register on their own *)
 Definition ex_mixed : list call :=
-  [mk 0 KGet 0 [OAwait 2]; mk 1 KSetMut 0 [OAwait 1]; mk 2 KMut 1 [OAt; ORemove]; mk 3 KGetAll 0 [OAwait 1];
-   {| c_id := 4; c_kind := KRef; c_if := 2; c_spawn := false; c_script := [OAt] |}; mk 5 KIntro 0 []].
-Example ex_mixed_safe : Known_C30 ex_mixed = false /\ methods_only ex_mixed = false.
+  [mk 0 KGet 0 [OAwait 2; OAt]; mk 1 KSetMut 0 [OAwait 1; ORemove]; mk 2 KMut 1 [OAt; ORemove]; mk 3 KGetAll 0 [OAt];
+   {| c_id := 4; c_kind := KRef; c_if := 2; c_spawn := false; c_script := [OAt] |}; mk 5 KIntro 3 []; mk 6 KMut 1 [OIface 3]].
+Example ex_mixed_safe : Known_C30 ex_mixed = false /\ handlers_only ex_mixed = false.
 Proof. vm_compute. split; reflexivity. Qed.
 Example ex_mixed_runs : ex_check ex_mixed (auto_run 2000 (init ex_mixed) []) = true /\
                         ex_check ex_mixed (auto_run_rev 2000 (init ex_mixed) []) = true.
